@@ -532,6 +532,9 @@ impl<'a, R: AsyncRead + Unpin, W: AsyncWrite + Unpin> Request<'a, R, W> {
 
             // Both stream and protocol data buffers are empty here
             this.parser.compress();
+            // Send out management replies produced above before waiting for new
+            // input: the client may be waiting for them before sending more
+            ready!(Pin::new(&mut *this).poll_output(cx))?;
             let buf = this.parser.input_buffer();
             read = ready!(Pin::new(&mut this.input).poll_read(cx, buf))?;
             if read == 0 {
